@@ -193,6 +193,11 @@ def regular_case(draw):
         gc = {'nodes': labels[:4], 'edges': [[labels[0], labels[1]], [labels[1], labels[2]], [labels[2], labels[3]], [labels[3], labels[0]]],
               'ew': None, 'nw': None, 'directed': False}
         d = 2
+    if draw(st.integers(0, 2)) == 0:
+        # the graph happens to carry edge/node attributes (a 'weight' from wherever it was built): the calls below pass no weight
+        # option, so the models are the unweighted ones
+        gc['ew'] = {'weight': [draw(st.sampled_from([0.5, 2.0, 0.25, 3.0])) for _ in gc['edges']]}
+        gc['nw'] = {'weight': [draw(st.sampled_from([0.5, 2.0])) for _ in gc['nodes']]}
     tau = draw(st.one_of(st.sampled_from([0.5, 1.0, 2.0]), st.floats(0.1, 3.0, allow_nan=False)))
     T = min(draw(st.sampled_from([1.0, 3.0, 10.0])), 3.0 / (tau * d))
     return {'entry': 'x', 'gc': gc, 'mode': 'rho', 'tau': tau, 'gamma': draw(st.one_of(st.sampled_from([0.5, 1.0]), st.floats(0.1, 3.0, allow_nan=False))),
